@@ -604,6 +604,7 @@ void opt_args(opt_t * opt, int argc, char *argv[])
          *  The following options were handled in opt_args_early() :
          */
         case 'M':
+        case 'd':
             break;
 
         /*  Continue processing regular options...
